@@ -9,7 +9,7 @@
 //   images2 <fmt> <w> <h> <outprefix> <k> <rounds> <base> <mul>   k threads write k images concurrently
 //   tracesteer <outprefix> <S> <window> <pattern>      steer the size of the saved log towards S bytes, then save after
 //                                                      EVERY further event until the log is larger than S + window
-//   trace <outfile> <processNameIndex or -1> <mainThreadRecords:0|1> <nthreads> <globalLocale: 0 classic, 1 en-like, 2 de-like> <saveFromAtexitHandler: 0|1>
+//   trace <outfile> <processNameIndex or -1> <mainThreadRecords:0|1> <nthreads> <globalLocale: 0 classic, 1 en-like, 2 de-like> <saveFromAtexitHandler: 0|1> <saveIntoAPipe: 0|1>
 //     then per thread:  thread <nameIndex or -1> <nevents>  followed by nevents events:
 //       B <name> <cat|-1> | E | I <name> <cat|-1> | C <name> <value> | M
 //   (names / categories / thread and process names are indices into fixed tables: the recorder caches
@@ -24,6 +24,7 @@
 #include <sstream>
 #include <string>
 #include <sys/stat.h>
+#include <unistd.h>
 #include <thread>
 #include <vector>
 
@@ -246,8 +247,8 @@ int main(int argc, char **argv)
   }
   if (what == "trace") {
     std::string out;
-    int pname, mainRecords, nthreads, loc = 0, atExit = 0;
-    in >> out >> pname >> mainRecords >> nthreads >> loc >> atExit;
+    int pname, mainRecords, nthreads, loc = 0, atExit = 0, toPipe = 0;
+    in >> out >> pname >> mainRecords >> nthreads >> loc >> atExit >> toPipe;
     if (atExit) {
       // the application saves its trace from an atexit handler registered at the very top of main(), before anything was
       // traced: the recorder must still be there when the handler runs
@@ -313,7 +314,27 @@ int main(int argc, char **argv)
       });
     for (auto &x : th)
       x.join();
-    if (!atExit)
+    if (!atExit && toPipe) {
+      // the log goes to something that cannot seek (a pipe to a viewer, /dev/stdout redirected into a tool): the reader
+      // thread collects what arrives and stores it where the checker expects the log
+      int fds[2];
+      if (pipe(fds) != 0)
+        return 2;
+      std::string got;
+      std::thread reader([&] {
+        char buf[65536];
+        ssize_t r;
+        while ((r = read(fds[0], buf, sizeof buf)) > 0)
+          got.append(buf, (size_t)r);
+      });
+      const std::string target = "/proc/self/fd/" + std::to_string(fds[1]);
+      tracing::saveLog(target.c_str(), pname >= 0 ? PNAMES[pname] : nullptr);
+      close(fds[1]);
+      reader.join();
+      close(fds[0]);
+      std::ofstream f(out, std::ios::binary);
+      f.write(got.data(), (std::streamsize)got.size());
+    } else if (!atExit)
       tracing::saveLog(out.c_str(), pname >= 0 ? PNAMES[pname] : nullptr);
     std::ofstream meta(out + ".meta");
     for (int t = 0; t < nthreads; ++t)
